@@ -804,6 +804,21 @@ pub fn exec_rt(t: &[&str]) -> String {
     }
 }
 
+/// `specrd <S|E> <hex text> ;; <value>`: what an independent reader of the documented grammar must make of the
+/// text the printer wrote for the value: the value itself (default options), its Emacs Lisp folding (Emacs options).
+/// The model side answers with what the specification reader (not the model of the crate's parser) reads.
+pub fn exec_specrd(t: &[&str]) -> String {
+    let mut it = t[4..].iter().copied();
+    let v = dec_value(&mut it);
+    let (p, ro) = if t[1] == "E" { (P_ELISP, R_ELISP) } else { (P_DEFAULT, R_DEFAULT) };
+    // the text in the operation line is the real printer's (checked again here: the printer is deterministic)
+    match lexpr::to_vec_custom(&v, print_opts(p)) {
+        Ok(b) if hex(&b) == t[2] => {}
+        _ => return "printer-changed-its-mind".into(),
+    }
+    format!("ok {}", enc_value(&crate::oracle::fold(p, ro, &v)))
+}
+
 /// `prefix <R10> <k> <fast> <hex>`: parse the first k bytes.
 pub fn exec_prefix(t: &[&str]) -> String {
     let data = unhex(t[4]);
@@ -854,6 +869,7 @@ pub fn exec(line: &str) -> String {
         "from" => exec_from(&t),
         "cmp" => exec_cmp(&t),
         "rt" => exec_rt(&t),
+        "specrd" => exec_specrd(&t),
         "prefix" => exec_prefix(&t),
         "pp" | "ppe" => exec_pp(&t),
         "triv" => exec_triv(&t),
